@@ -41,14 +41,14 @@ def slices(tier):
     if tier == "quick":
         quick_menu = [core[0], core[2], core[4], core[7]]
         return [
-            ("U3x3x3", spaces.shape_pairs(3, 3), u3, quick_menu[:3] + [core[6]]),   # core[6]: hgt = 0
+            ("U3x3x3", spaces.shape_pairs(3, 3), u3, [core[0], core[2], core[6]]),   # default, distinct weights, hgt = 0
             # 4 object leaves: two INHERIT siblings below a node that gains a family (shared-set hazards)
             ("U4x2x2", spaces.shape_pairs(4, 2, min_obj=4), u2, [core[0], core[4], spaces.CV_DISTINCT, spaces.CV_SLOSS3]),
             # 5 object leaves in a chain: four nested ancestors (an INHERIT node above an INHERIT node that gains a family)
             ("U5chainx1x3", [(sh, None) for sh in spaces.chain_shapes(5)], u3, [core[0]]),
             # 4 object leaves, 3 families, a cherry of species: an ancestor that inherits a family none of its leaves
             # carries and transfers a child to the sister species
-            ("U4chainx2x3", [(sh, (None, None)) for sh in spaces.chain_shapes(4)], u3, [core[0]]),
+            ("U4chainx2x3", [(sh, (None, None)) for sh in spaces.chain_shapes(4)[::3]], u3, [core[0]]),   # the two combs
         ]
     full = core + [c for c in c02.EXTRA_VECTORS if spaces.coherent(c)]
     return [
